@@ -109,19 +109,31 @@ Proof.
   now apply (bc_face_renumbers cells faces pos).
 Qed.
 
-Lemma ex_faces_renumber faces vs bf xfs :
+Lemma ex_face_renumbers cells faces pos f2c vs f T :
+  face_ok (nth f faces []) -> ex_face cells faces pos f2c vs f = Ok T -> renumbers vs T (nth f faces []).
+Proof.
+  intros OK. destruct (face_ok_shape _ OK) as [a [b [c EF]]]. unfold ex_face. rewrite ex_face_order_id, EF.
+  destruct (map_opt (m2b vs) [a; b; c]) as [face|] eqn:M; [|discriminate].
+  destruct (map_opt_three _ _ _ _ _ M) as [x [y [z [-> [Ma [Mb Mc]]]]]].
+  apply m2b_b2m in Ma, Mb, Mc.
+  assert (R1 : renumbers vs [x; y; z] [a; b; c]) by (exists x, y, z, a, b, c; repeat split; assumption || reflexivity).
+  assert (R2 : renumbers vs [x; z; y] [a; b; c]).
+  { exists x, z, y, a, c, b. repeat split; try assumption; try reflexivity. apply perm_skip, perm_swap. }
+  destruct (ex_orient_guard (length [x; y; z]) (length (F2C f2c f))).
+  - destruct (F2C f2c f) as [|iC rest]; [discriminate|].
+    destruct (others (nth iC cells []) [a; b; c]) as [|d r']; [discriminate|].
+    rewrite ex_flip_def. destruct (ex_flip_test (pos a) (pos b) (pos c) (pos d)); intros H; inversion H; subst; assumption.
+  - intros H. inversion H; subst. assumption.
+Qed.
+
+Lemma ex_faces_renumber cells faces pos f2c vs bf xfs :
   Forall face_ok faces -> (forall f, In f bf -> f < length faces) ->
-  ex_faces faces vs bf = Ok xfs -> Forall2 (fun f T => renumbers vs T (nth f faces [])) bf xfs.
+  ex_faces cells faces pos f2c vs bf = Ok xfs -> Forall2 (fun f T => renumbers vs T (nth f faces [])) bf xfs.
 Proof.
   intros HF HB H. apply map_res_ok in H.
-  assert (G : forall f T, In f bf -> ex_face faces vs f = Ok T -> renumbers vs T (nth f faces [])).
-  { intros f T Hf E. unfold ex_face in E. destruct (map_opt (m2b vs) (nth f faces [])) as [l|] eqn:M; [|discriminate].
-    inversion E; subst l. apply map_opt_Forall2 in M.
-    pose proof (proj1 (Forall_forall _ _) HF _ (nth_In _ [] (HB f Hf))) as OK.
-    destruct (face_ok_shape _ OK) as [a [b [c EF]]]. rewrite EF in *.
-    inversion M as [|? x ? t1 Ea M1]; subst. inversion M1 as [|? y ? t2 Eb M2]; subst.
-    inversion M2 as [|? z ? t3 Ec M3]; subst. inversion M3; subst.
-    exists x, y, z, a, b, c. repeat split; try (now apply m2b_b2m); reflexivity. }
+  assert (G : forall f T, In f bf -> ex_face cells faces pos f2c vs f = Ok T -> renumbers vs T (nth f faces [])).
+  { intros f T Hf E. apply (ex_face_renumbers cells faces pos f2c); [|assumption].
+    apply (proj1 (Forall_forall _ _) HF). apply nth_In. now apply HB. }
   clear HB. revert G. generalize dependent xfs. induction bf as [|f t IH]; intros xfs H G; inversion H; subst; constructor.
   - apply G; [now left|assumption].
   - apply IH; [assumption|]. intros f' T' Hf'. apply G. now right.
